@@ -180,14 +180,30 @@ func Generate(seed uint64, n int, tier, corpusDir string, shard int, out *kit.Ou
 		if err != nil {
 			return err
 		}
-		out.Emit(c)
+		out.Emit(wrapHistory(c))
+		if i%3 == 2 {
+			sc, err := executeScan(genScan(r.Fork()))
+			if err != nil {
+				return err
+			}
+			out.Emit(sc)
+		}
 	}
 	return nil
+}
+
+// the history cases are one constructor of the check's case type
+func wrapHistory(c kit.Case) kit.Case {
+	c.Coq = "CHistory (" + c.Coq + ")"
+	return c
 }
 
 func Replay(path string, out *kit.Out) error {
 	b, err := os.ReadFile(path)
 	if err != nil {
+		return err
+	}
+	if done, err := replayScan(b, out); done {
 		return err
 	}
 	var w struct {
@@ -217,7 +233,7 @@ func Replay(path string, out *kit.Out) error {
 	if err != nil {
 		return err
 	}
-	out.Emit(c)
+	out.Emit(wrapHistory(c))
 	return nil
 }
 
